@@ -123,6 +123,10 @@ pub fn family(name: &str) -> GenCfg {
         "wide" => GenCfg { npkg: 9, maxver: 9, maxreq: 4, p_con: 60, p_union: 15, p_unknown: 2, p_excl: 5, p_lock: 0, p_fav: 5, p_missing: 5, p_rootcon: 30, maxroot: 4, ..GenCfg::tiny() },
         "cyclic" => GenCfg::tiny(),
         "big" => GenCfg { npkg: 20, maxver: 8, maxreq: 3, p_con: 70, p_missing: 2, layered: true, ..GenCfg::conf() },
+        // few packages with MANY candidates each (more than any small-slice special case of a
+        // sorting routine, several at-most-one helper bits, version sets matching 20+ candidates)
+        "many" => GenCfg { npkg: 3, maxver: 48, maxreq: 2, p_con: 25, p_union: 15, p_unknown: 1, p_excl: 5, p_lock: 3, p_fav: 60, p_missing: 3, p_rootcon: 20, p_rank: 60, p_extset: 25, ..GenCfg::tiny() },
+        "many-hints" => GenCfg { hints: 1, ..family("many") },
         other => panic!("unknown family {other}"),
     }
 }
